@@ -437,7 +437,7 @@ SCOPES = {
     'C12': (('/emissions/', '/utils/standard_atmosphere.py', '/performance/types.py'), 'Indices are returned for other conditions than those asked for.'),
     'C13': (('/missions/', '/utils/airports.py'), 'Rows of a later import are resolved against an earlier database.'),
     'C14': (('/missions/',), 'A query answers from another database or filter.'),
-    'C15': (('/trajectories/ground_track.py', '/utils/'), 'Points are located on another track.'),
+    'C15': (('/trajectories/ground_track.py', '/utils/', '/missions/mission.py'), 'Points are located on another track.'),
     'C16': (('/weather.py', '/utils/standard_atmosphere.py'), 'Wind of another time or place enters the ground speed.'),
     'C17': (('/trajectories/builders/', '/weather.py', '/performance/'), 'The result of a flight depends on the flights before it.'),
     'C18': (('/config/', '/utils/models.py'), 'A later load sees what an earlier load (even a failed one) left in the cached data.'),
